@@ -8,7 +8,7 @@ import Lemmas.Conv128RatGrammar
     `± mantissa · base^(−fraction digits) · (10|2)^exponent`, and refuses only by its limits on the exponents. -/
 namespace Conv
 
-theorem pow_split (p : ℚ) (hp : p ≠ 0) (e : Int) :
+theorem pow_split (p : ℚ) (e : Int) :
     ((if e > 0 then p ^ e.toNat else 1) : ℚ) / (if e < 0 then p ^ (-e).toNat else 1) = p ^ e := by
   rcases lt_trichotomy e 0 with h | h | h
   · rw [if_neg (by omega), if_pos h]
@@ -22,13 +22,11 @@ theorem pow_split (p : ℚ) (hp : p ≠ 0) (e : Int) :
 theorem num_den_value (M : Nat) (e5 e2 : Int) :
     ((numOf M e5 e2 : Nat) : ℚ) / ((denOf e5 e2 : Nat) : ℚ) = (M : ℚ) * (5 : ℚ) ^ e5 * (2 : ℚ) ^ e2 := by
   unfold numOf denOf
-  have h5 := pow_split 5 (by norm_num) e5
-  have h2 := pow_split 2 (by norm_num) e2
+  have h5 := pow_split 5 e5
+  have h2 := pow_split 2 e2
   push_cast
   rw [← h5, ← h2]
-  have d5 : ((if e5 < 0 then (5:ℚ) ^ (-e5).toNat else 1) : ℚ) ≠ 0 := by split <;> positivity
-  have d2 : ((if e2 < 0 then (2:ℚ) ^ (-e2).toNat else 1) : ℚ) ≠ 0 := by split <;> positivity
-  field_simp
+  ring
 
 /-- the powers of 5 and 2 collected by `Rat.SetString` are `base^(−fraction digits) · ebase^exponent` -/
 theorem exp_value (B : Nat) (c : Int) (eb : Nat) (x : Int) (hB : B = 10 ∨ B = 2 ∨ B = 8 ∨ B = 16)
@@ -43,14 +41,153 @@ theorem exp_value (B : Nat) (c : Int) (eb : Nat) (x : Int) (hB : B = 10 ∨ B = 
   unfold exp5Of exp2Of
   by_cases hc : c < 0
   · rcases hB with h | h | h | h <;> rcases heb with g | g <;> subst h <;> subst g <;>
-      simp only [hc, if_true, true_and, and_true, beq_self_eq_true, Nat.reduceBEq, Bool.false_eq_true, if_false,
-        or_true, true_or, or_false, false_or, and_false, Nat.cast_ofNat] <;>
+      simp only [hc, if_true, and_true, beq_self_eq_true, Nat.reduceBEq, Bool.false_eq_true, if_false,
+        or_true, or_false, and_false, Nat.cast_ofNat] <;>
       (try rw [t10]) <;> (try rw [t8]) <;> (try rw [t16]) <;>
       simp only [mul_zpow, zpow_add₀ n5, zpow_add₀ n2, ← zpow_mul, zpow_zero] <;> ring_nf
   · rcases hB with h | h | h | h <;> rcases heb with g | g <;> subst h <;> subst g <;>
       simp only [hc, if_false, false_and, and_false, beq_self_eq_true, Nat.reduceBEq, Bool.false_eq_true, if_true,
         Nat.cast_ofNat, zero_add, zpow_zero, one_mul] <;>
       (try rw [t10]) <;>
-      simp only [mul_zpow, zpow_zero, one_mul]
+      simp only [mul_zpow]
+
+/-- **value of the arithmetic tail**: when `ratTail` returns `n/d`, that fraction is exactly
+    `± M · B^(−fraction digits) · eb^x` (`c < 0` is minus the number of fraction digits; `c ≥ 0` means none) -/
+theorem ratTail_value (neg : Bool) (M B : Nat) (c : Int) (eb : Nat) (x : Int) (n : Int) (d : Nat)
+    (hB : B = 10 ∨ B = 2 ∨ B = 8 ∨ B = 16) (heb : eb = 10 ∨ eb = 2)
+    (h : ratTail neg M B c eb x = some (n, d)) :
+    (n : ℚ) / (d : ℚ) =
+      (if neg then -1 else 1) * (M : ℚ) * (B : ℚ) ^ (if c < 0 then c else 0) * (eb : ℚ) ^ x := by
+  unfold ratTail at h
+  by_cases h0 : (M == 0) = true
+  · rw [if_pos h0] at h
+    injection h with h; injection h with h1 h2
+    have : M = 0 := by simpa using h0
+    subst this; subst h1; subst h2
+    simp
+  · rw [if_neg h0] at h
+    by_cases h1 : (exp5Of B c eb x).natAbs > 1000000
+    · rw [if_pos h1] at h; cases h
+    · rw [if_neg h1] at h
+      by_cases h2 : (decide (exp2Of B c x < -10000000) || decide (exp2Of B c x > 10000000)) = true
+      · rw [if_pos h2] at h; cases h
+      · rw [if_neg h2] at h
+        injection h with h; injection h with e1 e2
+        have hv := num_den_value M (exp5Of B c eb x) (exp2Of B c x)
+        have he := exp_value B c eb x hB heb
+        rw [← e1, ← e2]
+        cases neg
+        · simp only [Bool.false_eq_true, if_false, one_mul]
+          rw [Int.cast_natCast, hv, mul_assoc, he]; ring
+        · simp only [if_true]
+          rw [Int.cast_neg, Int.cast_natCast, neg_div, hv, mul_assoc, he]; ring
+
+/-- the arithmetic tail refuses only by the limits `math/big` puts on the collected exponents -/
+theorem ratTail_none_iff (neg : Bool) (M B : Nat) (c : Int) (eb : Nat) (x : Int) :
+    ratTail neg M B c eb x = none ↔
+      M ≠ 0 ∧ ((exp5Of B c eb x).natAbs > 1000000 ∨ exp2Of B c x < -10000000 ∨ exp2Of B c x > 10000000) := by
+  unfold ratTail
+  by_cases h0 : M = 0
+  · subst h0; simp
+  · have : (M == 0) = false := by simpa using h0
+    rw [this]
+    simp only [Bool.false_eq_true, if_false]
+    by_cases h1 : (exp5Of B c eb x).natAbs > 1000000
+    · rw [if_pos h1]; exact ⟨fun _ => ⟨h0, Or.inl h1⟩, fun _ => rfl⟩
+    · rw [if_neg h1]
+      by_cases h2 : exp2Of B c x < -10000000
+      · simp [h2, h0]
+      · by_cases h3 : exp2Of B c x > 10000000
+        · simp [h3, h0]
+        · simp [h1, h2, h3]
+
+/-! ## the declarative exponent-form integer literal -/
+
+theorem ratMant_base {mant : List Char} {B M : Nat} {c : Int} (h : RatMant mant B M c) :
+    B = 10 ∨ B = 2 ∨ B = 8 ∨ B = 16 := by
+  cases h with
+  | pre p B t hp _ _ =>
+    rcases hp with ⟨_, e⟩ | ⟨_, e⟩ | ⟨_, e⟩
+    · exact Or.inr (Or.inl e)
+    · exact Or.inr (Or.inr (Or.inl e))
+    · exact Or.inr (Or.inr (Or.inr e))
+  | dec _ _ _ _ => exact Or.inl rfl
+
+theorem expPart_base {ex : List Char} {eb : Nat} {x : Int} (h : ExpPart ex eb x) : eb = 10 ∨ eb = 2 := by
+  rcases h with ⟨_, e, _⟩ | ⟨_, _, _, hc, _⟩
+  · exact Or.inl e
+  · rcases hc with ⟨_, e⟩ | ⟨_, e⟩
+    · exact Or.inl e
+    · exact Or.inr e
+
+/-- the limits `math/big` puts on the exponents it collects (none for a zero mantissa): the power of 5 is at most
+    10^6 in magnitude, the power of 2 at most 10^7 -/
+def WithinLimits (M B : Nat) (c : Int) (eb : Nat) (x : Int) : Prop :=
+  M = 0 ∨ ((exp5Of B c eb x).natAbs ≤ 1000000 ∧ -10000000 ≤ exp2Of B c x ∧ exp2Of B c x ≤ 10000000)
+
+/-- **exponent-form integer literal denoting `z`**: an optional sign, a mantissa (`RatMant`: base `B`, digits' value
+    `M`, `c < 0` = minus the number of fraction digits), an exponent part (`ExpPart`: base `eb` ∈ {10, 2}, exponent
+    `x`; `e`/`E` cannot follow a hexadecimal mantissa), within `math/big`'s exponent limits, whose exact rational
+    value `± M · B^(−fraction digits) · eb^x` is the integer `z` -/
+def IsExpIntLiteral (s : List Char) (z : Int) : Prop :=
+  ∃ sg mant ex B M c eb x neg, s = sg ++ (mant ++ ex) ∧
+    (((sg = [] ∨ sg = ['+']) ∧ neg = false) ∨ (sg = ['-'] ∧ neg = true)) ∧
+    RatMant mant B M c ∧ ExpHead B ex ∧ ExpPart ex eb x ∧ WithinLimits M B c eb x ∧
+    (z : ℚ) = (if neg then -1 else 1) * (M : ℚ) * (B : ℚ) ^ (if c < 0 then c else 0) * (eb : ℚ) ^ x
+
+theorem exp_literal_iff (s : List Char) (z : Int) :
+    (∃ n d, IsRatLiteral s n d ∧ n = z * d) ↔ IsExpIntLiteral s z := by
+  constructor
+  · rintro ⟨n, d, ⟨sg, mant, ex, B, M, c, eb, x, neg, hs, hsg, hm, hEH, hexp, hrt⟩, hz⟩
+    refine ⟨sg, mant, ex, B, M, c, eb, x, neg, hs, hsg, hm, hEH, hexp, ?_, ?_⟩
+    · have hne : ratTail neg M B c eb x ≠ none := by rw [hrt]; exact fun h => by cases h
+      rw [Ne, ratTail_none_iff] at hne
+      by_cases h0 : M = 0
+      · exact Or.inl h0
+      · right
+        have := fun h => hne ⟨h0, h⟩
+        omega
+    · have hd := ratTail_den_pos _ _ _ _ _ _ _ _ hrt
+      have hv := ratTail_value neg M B c eb x n d (ratMant_base hm) (expPart_base hexp) hrt
+      rw [← hv, hz]
+      have : (d : ℚ) ≠ 0 := by exact_mod_cast (by omega : d ≠ 0)
+      push_cast
+      rw [mul_div_assoc, div_self this, mul_one]
+  · rintro ⟨sg, mant, ex, B, M, c, eb, x, neg, hs, hsg, hm, hEH, hexp, hlim, hz⟩
+    have hne : ratTail neg M B c eb x ≠ none := by
+      rw [Ne, ratTail_none_iff]
+      rintro ⟨h0, h⟩
+      rcases hlim with h1 | h1
+      · exact h0 h1
+      · omega
+    obtain ⟨⟨n, d⟩, hrt⟩ := Option.ne_none_iff_exists'.mp hne
+    refine ⟨n, d, ⟨sg, mant, ex, B, M, c, eb, x, neg, hs, hsg, hm, hEH, hexp, hrt⟩, ?_⟩
+    have hd := ratTail_den_pos _ _ _ _ _ _ _ _ hrt
+    have hv := ratTail_value neg M B c eb x n d (ratMant_base hm) (expPart_base hexp) hrt
+    rw [← hz] at hv
+    have hd' : (d : ℚ) ≠ 0 := by exact_mod_cast (by omega : d ≠ 0)
+    have : (n : ℚ) = (z : ℚ) * (d : ℚ) := by
+      rw [← hv, div_mul_cancel₀ _ hd']
+    exact_mod_cast this
+
+/-- **integer literal of `FromString`**: without `e`/`E` a plain literal; with `e`/`E` an exponent-form literal without `/` -/
+def IsIntLiteral (s : List Char) (z : Int) : Prop :=
+  (hasExpChar s = false ∧ IsPlainIntLiteral s z) ∨
+  (hasExpChar s = true ∧ hasSlash s = false ∧ IsExpIntLiteral s z)
+
+/-- **`parseToBigInt` accepts exactly the integer literals, with the denoted value** -/
+theorem parseToBigInt_iff (s : List Char) (z : Int) : parseToBigInt s = some z ↔ IsIntLiteral s z := by
+  unfold IsIntLiteral
+  cases h : hasExpChar s
+  · have : parseToBigInt s = bigIntSetString s := by unfold parseToBigInt; rw [h]; rfl
+    rw [this, bigIntSetString_iff]
+    simp
+  · rw [parseToBigInt_exp_iff s z h, ← exp_literal_iff]
+    simp only [Bool.true_eq_false, false_and, false_or, true_and]
+    constructor
+    · rintro ⟨h1, n, d, h2, h3⟩
+      exact ⟨h1, n, d, (bigRatSetString_iff s n d).mp h2, h3⟩
+    · rintro ⟨h1, n, d, h2, h3⟩
+      exact ⟨h1, n, d, (bigRatSetString_iff s n d).mpr h2, h3⟩
 
 end Conv
